@@ -23,7 +23,8 @@ TECHNIQUE = ('stateful fuzzing with an exact reference-count oracle on the sanit
              'succeed on states carrying a successor link (the successor node\'s reference count must not move), '
              'and a closing sweep of range searches bounded by the first / last key of every leaf; read-only calls '
              'must leave the reference counts of all nodes unchanged; ASan/UBSan + asserts turn bad memory accesses '
-             'into crashes')
+             'into crashes; '
+             'byValue; an end mode in which the container is stored and every node load is failed in turn inside set operations / iteration / byValue / len')
 RULE = ('a case is a configuration + history.  Non-trivial: it contains at least one failing call, at least one '
         'replace when the container is a mapping, and at least one leaf unlink when it is a tree.  Distinct = '
         'distinct case JSON.')
